@@ -22,52 +22,56 @@ fn sem(o: sem_struct::Opts) -> Box<dyn Fn(&mut Ctx) -> Option<FCase> + Sync> {
     })
 }
 
+/// `tier`: "quick" | "mid" (the thorough tier of the checks that multiply the corpus: C06, C12, C13, C19) | "thorough"
 pub fn spaces(tier: &str) -> Vec<CSpace> {
     let quick = tier == "quick";
+    let mid = tier == "mid";
+    // (quick, mid, thorough) deviation bounds
+    let b3 = |q: Option<usize>, m: Option<usize>, t: Option<usize>| if quick { q } else if mid { m } else { t };
     let mut v = vec![];
     v.push(CSpace {
         name: "sem-struct".into(),
         gen: sem(sem_struct::Opts { max_n: 2, menu: sem_struct::MENU_FULL, max_ghosts: 1, allow_update: true, permute_idx: true }),
-        bound: if quick { Some(5) } else { None },
+        bound: b3(Some(5), Some(7), None),
     });
     v.push(CSpace {
         name: "feat-struct".into(),
         gen: Box::new(move |ctx| gen_struct(ctx, &FOpts { max_members: if quick { 2 } else { 3 }, two_counterparts: true, force_two: false, full_menu: true, params: true })),
-        bound: if quick { Some(4) } else { Some(6) },
+        bound: b3(Some(4), Some(5), Some(6)),
     });
     v.push(CSpace {
         name: "feat-enum".into(),
         gen: Box::new(move |ctx| gen_enum(ctx, &FOpts { max_members: if quick { 2 } else { 3 }, two_counterparts: true, force_two: false, full_menu: true, params: true })),
-        bound: if quick { Some(4) } else { Some(6) },
+        bound: b3(Some(4), Some(5), Some(6)),
     });
     let k = if quick { 1 } else { 2 };
-    v.push(CSpace { name: "names-member".into(), gen: Box::new(move |ctx| crate::names::gen_member(ctx, 2)), bound: if quick { Some(4) } else { None } });
-    v.push(CSpace { name: "names-variant".into(), gen: Box::new(move |ctx| crate::names::gen_variant(ctx, k + 1)), bound: if quick { Some(3) } else { Some(7) } });
-    v.push(CSpace { name: "names-type".into(), gen: Box::new(move |ctx| crate::names::gen_type(ctx, 2)), bound: if quick { Some(4) } else { None } });
-    v.push(CSpace { name: "names-parent".into(), gen: Box::new(move |ctx| crate::names::gen_parent(ctx, 2)), bound: if quick { Some(5) } else { None } });
-    v.push(CSpace { name: "allow-unknown".into(), gen: Box::new(|ctx| crate::names::gen_allow_unknown(ctx)), bound: if quick { Some(5) } else { None } });
-    v.push(CSpace { name: "faulty".into(), gen: Box::new(|ctx| crate::names::gen_faulty(ctx)), bound: if quick { Some(3) } else { None } });
+    v.push(CSpace { name: "names-member".into(), gen: Box::new(move |ctx| crate::names::gen_member(ctx, 2)), bound: b3(Some(4), Some(5), None) });
+    v.push(CSpace { name: "names-variant".into(), gen: Box::new(move |ctx| crate::names::gen_variant(ctx, k + 1)), bound: b3(Some(3), Some(5), Some(7)) });
+    v.push(CSpace { name: "names-type".into(), gen: Box::new(move |ctx| crate::names::gen_type(ctx, 2)), bound: b3(Some(4), Some(5), None) });
+    v.push(CSpace { name: "names-parent".into(), gen: Box::new(move |ctx| crate::names::gen_parent(ctx, 2)), bound: b3(Some(5), Some(6), None) });
+    v.push(CSpace { name: "allow-unknown".into(), gen: Box::new(|ctx| crate::names::gen_allow_unknown(ctx)), bound: b3(Some(5), Some(6), None) });
+    v.push(CSpace { name: "faulty".into(), gen: Box::new(|ctx| crate::names::gen_faulty(ctx)), bound: b3(Some(3), Some(4), None) });
     // the semantic flattening / enum generators of C02, C03 as hosts (ghost-only nested structs, positional paths,
     // nested parameterised parents, variant-level instructions) - added after seeds C19-02, C07-02
     v.push(CSpace {
         name: "sem-flat".into(),
         gen: Box::new(|ctx| crate::sem_flat::gen_child(ctx, &crate::sem_flat::FlatOpts { max_members: 3, max_ghosts: 2, max_depth: 2, positional: false }).map(|c| FCase { item: c.item("S", true), tags: c.tags.clone() })),
-        bound: if quick { Some(5) } else { Some(7) },
+        bound: b3(Some(4), Some(6), Some(7)),
     });
     v.push(CSpace {
         name: "sem-flat-pos".into(),
         gen: Box::new(|ctx| crate::sem_flat::gen_child(ctx, &crate::sem_flat::FlatOpts { max_members: 3, max_ghosts: 2, max_depth: 2, positional: true }).map(|c| FCase { item: c.item("S", true), tags: c.tags.clone() })),
-        bound: if quick { Some(4) } else { Some(6) },
+        bound: b3(Some(4), Some(5), Some(6)),
     });
     v.push(CSpace {
         name: "sem-parent".into(),
         gen: Box::new(|ctx| crate::sem_flat::gen_parent(ctx, 3).map(|c| FCase { item: c.item("S", true), tags: c.tags.clone() })),
-        bound: if quick { Some(4) } else { Some(6) },
+        bound: b3(Some(4), Some(5), Some(6)),
     });
     v.push(CSpace {
         name: "sem-enum".into(),
         gen: Box::new(|ctx| crate::sem_enum::gen(ctx, &crate::sem_enum::EOpts { max_variants: 2, max_fields: 2, full_menu: true }).map(|c| FCase { item: c.item("S", None), tags: c.tags.clone() })),
-        bound: if quick { Some(4) } else { Some(6) },
+        bound: b3(Some(4), Some(5), Some(6)),
     });
     v.push(CSpace { name: "feat-enum-prim".into(), gen: Box::new(|ctx| gen_enum_prim(ctx, &FOpts { max_members: 3, two_counterparts: false, force_two: false, full_menu: true, params: false })), bound: None });
     v
@@ -76,17 +80,19 @@ pub fn spaces(tier: &str) -> Vec<CSpace> {
 /// two-counterpart hosts (C06)
 pub fn spaces_2cp(tier: &str) -> Vec<CSpace> {
     let quick = tier == "quick";
+    let mid = tier == "mid";
+    let b3 = |q: Option<usize>, m: Option<usize>, t: Option<usize>| if quick { q } else if mid { m } else { t };
     vec![
-        CSpace { name: "dedication".into(), gen: Box::new(|ctx| crate::names::gen_dedication(ctx)), bound: if quick { Some(4) } else { Some(6) } },
+        CSpace { name: "dedication".into(), gen: Box::new(|ctx| crate::names::gen_dedication(ctx)), bound: b3(Some(4), Some(5), Some(6)) },
         CSpace {
             name: "feat-struct-2cp".into(),
             gen: Box::new(move |ctx| gen_struct(ctx, &FOpts { max_members: if quick { 2 } else { 3 }, two_counterparts: true, force_two: true, full_menu: true, params: false })),
-            bound: if quick { Some(4) } else { Some(6) },
+            bound: b3(Some(4), Some(5), Some(6)),
         },
         CSpace {
             name: "feat-enum-2cp".into(),
             gen: Box::new(move |ctx| gen_enum(ctx, &FOpts { max_members: if quick { 2 } else { 3 }, two_counterparts: true, force_two: true, full_menu: true, params: false })),
-            bound: if quick { Some(4) } else { Some(6) },
+            bound: b3(Some(4), Some(5), Some(6)),
         },
     ]
 }
@@ -106,7 +112,8 @@ pub fn for_each_in<V: Fn(&str, &[u32], FCase) + Sync>(sps: Vec<CSpace>, caps: &C
 }
 
 pub fn replay_case(tier_spaces: &[&str], space: &str, choices: &[u32]) -> Option<FCase> {
-    for t in tier_spaces {
+    let _ = tier_spaces;
+    for t in ["quick", "mid", "thorough"] {
         for sp in spaces(t).into_iter().chain(spaces_2cp(t)) {
             if sp.name == space {
                 let (c, full) = crate::explore::replay_one(|ctx| (sp.gen)(ctx), choices);
